@@ -226,7 +226,10 @@ CHECKS = {
              "run on symbolic z, x, Q2 and a symbolic mass; under the hypotheses m2 = 0 and ln(1-lambda) = -L (the collinear logarithm kept as a free real, "
              "linked to the L = ln(Q2/m2) of the asymptotic classes) z3 proves regular+singular and local parts equal to those of asy.AsyQuark/AsyGluon for "
              "ALL z, x, Q2, L, and that no denominator of the compared terms vanishes at m2 = 0 (continuity of everything but the formal logarithm): massive "
-             "minus asymptotic tends to zero with all logarithms retained. No finite set of (x, Q2/m2) samples shows a limit. NOT claimed: neutral-current heavy "
+             "minus asymptotic tends to zero with all logarithms retained. No finite set of (x, Q2/m2) samples shows a limit. Couplings clause (all processes, also NC): "
+             "through the real Combiner with symbolic electroweak parameters, for every heavy-quark channel family (quark-initiated incl. the 'missing' O(a_s^2) "
+             "term, gluon, singlet; heavy-quark-initiated: asymptotic -> massive only) the parton-weight vectors of the FFN0 kernels are those of the FFNS kernels "
+             "they replace, for all parameter values. NOT claimed for the coefficient functions themselves: neutral-current heavy "
              "channels (LeProHQ/adani/tabulated grids are external and uninterpreted), intrinsic and 'missing' channels, NNLO, the power of the suppression, "
              "numerical size at finite Q2/m2.",
         note=TRUST + "; candidates are replayed on floats at Q2/m2 = 1e4, 1e6, 1e8; a residual of pure float-constant noise <= 1e-9 is forgiven.",
